@@ -21,7 +21,7 @@ use owning_iovec::ByteArena;
 /// preserved and that the returned chunk obeys every clause of the property,
 /// so every pump sequence tiles the stream (for carry-over buffers and
 /// remaining streams within the bound).
-fn step<const S: usize>(block: usize, witness: bool) {
+fn step<const S: usize>(block: usize, sched: usize, witness: bool) {
     let m = if block < 2 { 2 } else { block };
     let stream: [u8; S] = kani::any();
     let len: usize = kani::any();
@@ -48,7 +48,7 @@ fn step<const S: usize>(block: usize, witness: bool) {
         }
     };
     let mut chunker = StreamChunker::verif_from_parts(buf, base);
-    let mut reader = SchedReader::any(&stream[bl..len]);
+    let mut reader = SchedReader::any_n(&stream[bl..len], sched);
 
     let chunk = match chunker.pump(&mut arena, &mut reader, block) {
         Ok(chunk) => chunk,
@@ -85,8 +85,10 @@ fn step<const S: usize>(block: usize, witness: bool) {
             // a sentinel at the front is never hidden inside a data chunk
             assert!(!(len >= 2 && stream[0] == 0xFE && stream[1] == 0xFD));
             emitted = s.len();
-            kani::cover!(s.len() >= 2 && s.len() < len && stream[s.len()] == 0xFE, "data split right before a held-back FE");
-            kani::cover!(s[s.len() - 1] == 0xFE, "data chunk ending in FE (no FD follows)");
+            if sched >= 2 {
+                kani::cover!(s.len() >= 2 && s.len() < len && stream[s.len()] == 0xFE, "data split right before a held-back FE");
+                kani::cover!(s[s.len() - 1] == 0xFE, "data chunk ending in FE (no FD follows)");
+            }
             std::mem::forget(slice);
         }
         Chunk::Eof => {
@@ -110,9 +112,13 @@ fn step<const S: usize>(block: usize, witness: bool) {
     assert!(reader.max_asked <= m);
 
     kani::cover!(bl == 1 && stream[0] == 0xFE && len >= 2 && stream[1] == 0xFD, "carried FE completed by FD from the reader");
-    kani::cover!(bl == 0 && len == 0, "end of stream");
-    kani::cover!(bl == m && emitted > 0, "full carry-over buffer");
-    kani::cover!(reader.calls >= 3, "short reads and an interrupted call");
+    if sched >= 2 {
+        kani::cover!(bl == 0 && len == 0, "end of stream");
+        kani::cover!(bl == m && emitted > 0, "full carry-over buffer");
+    }
+    if sched >= 2 {
+        kani::cover!(reader.calls >= 3, "short reads and an interrupted call");
+    }
     std::mem::forget(chunker);
     std::mem::forget(arena);
     if witness {
@@ -121,26 +127,32 @@ fn step<const S: usize>(block: usize, witness: bool) {
 }
 
 macro_rules! step_proofs {
-    ($($name:ident = ($s:expr, $block:expr, $w:expr);)*) => {
+    ($($name:ident = ($s:expr, $block:expr, $sched:expr, $w:expr);)*) => {
         $(
             #[kani::proof]
             #[kani::unwind(10)]
             fn $name() {
-                step::<$s>($block, $w)
+                step::<$s>($block, $sched, $w)
             }
         )*
     };
 }
 
 step_proofs! {
-    c08_step_s4_b0 = (4, 0, false);
-    c08_step_s4_b1 = (4, 1, false);
-    c08_step_s4_b2 = (4, 2, false);
-    c08_step_s5_b3 = (5, 3, false);
-    c08_step_s5_b3_witness = (5, 3, true);
-    c08_step_s6_b4 = (6, 4, false);
-    c08_step_s6_b2 = (6, 2, false);
-    c08_step_s6_b3 = (6, 3, false);
-    c08_step_s8_b5 = (8, 5, false);
-    c08_step_s8_b6 = (8, 6, false);
+    c08_step_s4_b0 = (4, 0, 2, false);
+    c08_step_s4_b1 = (4, 1, 2, false);
+    c08_step_s4_b2 = (4, 2, 2, false);
+    c08_step_s5_b3 = (5, 3, 2, false);
+    c08_step_s5_b3_witness = (5, 3, 2, true);
+    c08_step_s6_b4 = (6, 4, 2, false);
+    c08_step_s6_b2 = (6, 2, 2, false);
+    c08_step_s6_b3 = (6, 3, 2, false);
+    c08_step_s8_b5 = (8, 5, 2, false);
+    c08_step_s8_b6 = (8, 6, 2, false);
+    // quick tier: one symbolic reader call (short read or interrupted call), then full reads
+    c08_q_s4_b0 = (4, 0, 1, false);
+    c08_q_s5_b3 = (5, 3, 1, false);
+    c08_q_s6_b4 = (6, 4, 1, false);
+    c08_q_s5_b3_witness = (5, 3, 1, true);
+    c08_q0_s6_b4 = (6, 4, 0, false);
 }
